@@ -62,7 +62,11 @@ def evaluate(seed):
         sh(['git', 'checkout', '--', '.'], cwd=scratch)
         rc, o = sh([PY, os.path.join(seed, 'demo.py')], cwd=seed, env={'N2K_REPO': scratch}, timeout=120)
         out['demo_without_change_rc'] = rc
-        out['confirmed'] = bool(out['tests_ok'] and out['demo_with_change_rc'] != 0 and out['demo_without_change_rc'] == 0)
+        if meta.get('kind') == 'benign':
+            out['kind'] = 'benign'
+            out['confirmed'] = bool(out['tests_ok'] and out['demo_with_change_rc'] == 0 and out['demo_without_change_rc'] == 0)
+        else:
+            out['confirmed'] = bool(out['tests_ok'] and out['demo_with_change_rc'] != 0 and out['demo_without_change_rc'] == 0)
     finally:
         sh(['git', '-C', '/repo', 'worktree', 'remove', '--force', scratch])
         shutil.rmtree(scratch, ignore_errors=True)
@@ -74,6 +78,7 @@ def main():
     with ThreadPoolExecutor(max_workers=6) as ex:
         results = list(ex.map(evaluate, seeds))
     os.makedirs(os.path.join(VERIF, 'seeded'), exist_ok=True)
+    os.makedirs(os.path.join(VERIF, 'benign'), exist_ok=True)
     for r in results:
         pid = r.get('property')
         det = r.get('checks', {})
@@ -84,7 +89,7 @@ def main():
             print('   ERROR', r['error'])
         if r.get('confirmed'):
             k = os.path.basename(r['seed'].rstrip('/'))
-            dst = os.path.join(VERIF, 'seeded', k if k.startswith(pid + '-') else f"{pid}-{k}")
+            dst = os.path.join(VERIF, 'benign' if r.get('kind') == 'benign' else 'seeded', k if k.startswith(pid + '-') else f"{pid}-{k}")
             os.makedirs(dst, exist_ok=True)
             for fn in ('patch.diff', 'demo.py'):
                 if os.path.abspath(os.path.join(r['seed'], fn)) != os.path.abspath(os.path.join(dst, fn)):
